@@ -11,7 +11,8 @@ buffer (the specification lets messages on different chunk streams interleave).
 * the 32-bit extended field is present exactly when the governing 24-bit field is 0xFFFFFF (on a
   type 3 chunk: the field of the preceding header on that chunk stream);
 * a message in flight continues with type 3 chunks (whose extended field, if present, is not
-  interpreted: encoders disagree on its content) or with a repeat of its identical full header;
+  interpreted: encoders disagree on its content) or with a repeat of its identical full header
+  (which, being a type 0 header, makes its timestamp the delta in force like any type 0 header);
 * each chunk carries min(chunk size, remaining) payload bytes; a completed type-1 message with a
   value 1..2^31-1 changes the chunk size for all later chunks.
 
@@ -95,7 +96,7 @@ def chunk (s : State) (bs : Bytes) : Option (State × Option Msg × Bytes) := do
   let tsDelta : Option (Nat × Nat) :=
     if st.inFlight then
       if fmt = 3 then some (st.ts, st.delta)
-      else if fmt = 0 ∧ value = st.ts ∧ a.len = st.len ∧ a.typ = st.typ ∧ a.msid = st.msid then some (st.ts, st.delta)
+      else if fmt = 0 ∧ value = st.ts ∧ a.len = st.len ∧ a.typ = st.typ ∧ a.msid = st.msid then some (st.ts, value)
       else none
     else if fmt = 0 then some (value, value)
     else if fmt = 3 then some (add32 st.ts st.delta, st.delta)
